@@ -12,9 +12,16 @@
 (* One TLC state per trace line; an execution holds up to two runs (two    *)
 (* pipes of the same type with the same settings) and starts with Reset.   *)
 (*   Reset    {mode, mtu, align, psize}   settings of both runs            *)
+(*            (mode "chain": upipe_chunk_stream -> upipe_ts_check ->       *)
+(*            upipe_agg fed with a well-formed stream of whole packets of  *)
+(*            align = psize octets: the chain conserves like its members - *)
+(*            units of whole packets, at most mtu octets, every accepted   *)
+(*            octet exactly once, all of it once the head is released)     *)
 (*   In       {r, b, d}    run r is given the buffer b (octets); d = 1:    *)
 (*                         flagged as a discontinuity                      *)
 (*   Unit     {r, b}       run r output the unit b                         *)
+(*   BadUnit  {r, n, got}  run r output a buffer that announces n octets   *)
+(*                         of which only got can be read                   *)
 (*   Flush    {r}          upipe_flush returned                            *)
 (*   Rel      {r}          upipe_release of run r begins                   *)
 (*   Released {r}          ... and has returned                            *)
@@ -53,7 +60,7 @@ TInit == /\ l = 1 /\ cfg = Cfg0
 
 TReset == /\ IsEv("Reset")
           /\ LET e == Tr[l] IN
-             /\ e.mode \in {"agg", "chunk", "sync", "check"}
+             /\ e.mode \in {"agg", "chunk", "sync", "check", "chain"}
              /\ e.mtu >= 1 /\ e.align >= 1 /\ e.psize >= 1
              /\ cfg' = [mode |-> e.mode, mtu |-> e.mtu, align |-> e.align, psize |-> e.psize]
           /\ in' = [r \in Runs |-> <<>>] /\ acc' = [r \in Runs |-> <<>>]
@@ -89,6 +96,11 @@ TUnit == /\ IsEv("Unit")
                /\ uok' = [uok EXCEPT ![r] = @ /\ UnitOK(cfg.mode, cfg.mtu, cfg.align, cfg.psize, b)]
          /\ UNCHANGED <<cfg, in, acc, marks, dom, st>>
 
+\* a unit that announces more octets than can be read from it is no unit at all
+TBadUnit == /\ IsEv("BadUnit") /\ Tr[l].r \in Runs /\ st[Tr[l].r] \in {"run", "rel"}
+            /\ uok' = [uok EXCEPT ![Tr[l].r] = FALSE]
+            /\ UNCHANGED <<cfg, in, acc, marks, units, dom, sub, sel, cons, st>>
+
 TFlush == /\ IsEv("Flush") /\ Tr[l].r \in Runs /\ st[Tr[l].r] = "run"
           /\ UNCHANGED <<cfg, in, acc, marks, units, dom, sub, sel, cons, uok, st>>
 
@@ -111,7 +123,7 @@ TTimeout == /\ IsEv("Timeout") /\ Tr[l].r \in Runs /\ st[Tr[l].r] \in {"run", "r
 Subsequence == \A r \in Runs : sub[r] >= 0
 WholePackets == TS => \A r \in Runs : sel[r] >= 0
 Conservation ==
-    cfg.mode \in {"agg", "chunk"} =>
+    cfg.mode \in {"agg", "chunk", "chain"} =>
       \A r \in Runs : /\ cons[r] >= 0
                       /\ st[r] = "done" =>
                            Len(acc[r]) - cons[r] < (IF cfg.mode = "agg" THEN 1 ELSE cfg.align)
@@ -139,7 +151,7 @@ TStop == /\ Violated # {}
          /\ PrintT(<<"TRACE_VIOLATES", l - 1, Violated>>)
          /\ UNCHANGED vars
 
-TNext == \/ Violated = {} /\ (TReset \/ TIn \/ TUnit \/ TFlush \/ TRel \/ TReleased \/ TTimeout)
+TNext == \/ Violated = {} /\ (TReset \/ TIn \/ TUnit \/ TBadUnit \/ TFlush \/ TRel \/ TReleased \/ TTimeout)
          \/ TStop
 TSpec == TInit /\ [][TNext]_vars
 
